@@ -382,3 +382,33 @@ def r7(rr, repo):
     for d in dicts:
         v = [v for k, v in zip(d.keys, d.values) if q.const_str(k) == 'mid'][0]
         rr.ob("the data envelope's 'mid' is that id", idname is not None and U(v) == idname, za.mod, d, witness=U(d), key='hop4b')
+
+
+@rule('C01.R8', "a source's per-id set is always a fresh object: Sender.new_recv stores a copy / a new dict / None, never the subscription template itself, and the template maps every subscribed source topic to None")
+def r8(rr, repo):
+    za = anchors(repo)
+    ev = za.ev()
+    ps = ev.run(za.RS_new_recv.body)
+    rr.paths += len(ps)
+    n = 0
+    for p in ps:
+        st = [e for e in p.events if e.kind == 'store' and e.term == 'self.recvd']
+        if not st:
+            rr.violated('new_recv ends without replacing the per-id set', za.mod, za.RS_new_recv, witness=p.pc_text(), key='no-store')
+            continue
+        n += 1
+        v = st[-1].value
+        t = U(v)
+        fresh = (isinstance(v, ast.Constant) and v.value is None) or t.endswith('.copy()') or isinstance(v, (ast.Dict, ast.DictComp)) or t.startswith('self.init_recvd(') or t.startswith('dict(')
+        rr.ob('the set stored for the new id is a fresh object (copy / display / init_recvd result / None)', fresh, za.mod, st[-1].node, witness=f'{p.pc_text()} => self.recvd = {t[:80]}', key=f'fresh|{t[:40]}')
+        if isinstance(v, ast.Dict):
+            # {**template, topic: msg}: only the arriving topic is filled
+            ok = len(v.keys) == 2 and v.keys[0] is None and U(v.values[0]) == 'self.recvd_new'
+            rr.ob('an explicit subscription starts from the template and fills only the arriving topic', ok, za.mod, st[-1].node, witness=t[:100], key='explicit-start')
+    rr.floor('paths of Sender.new_recv', n, 4, za.mod, za.RS_new_recv)
+    tmpl = [e for p in za.paths('rs_init') for e in p.events if e.kind == 'store' and e.term == 'self.recvd_new' and isinstance(e.value, ast.DictComp)]
+    rr.floor('subscription templates built in Sender.__init__', len(tmpl), 1, za.mod, za.RS_init)
+    for e in tmpl[:1]:
+        v = e.value
+        ok = isinstance(v.value, ast.Constant) and v.value.value is None and U(v.generators[0].iter).startswith('topics')
+        rr.ob('the template has one key per subscribed source topic, all missing (None)', ok, za.mod, e.node, witness=U(v)[:100], key='template')
